@@ -187,6 +187,7 @@ func cmdCheck(args []string) int {
 		seed, _ = strconv.Atoi(s)
 	}
 	t0 := time.Now()
+	replayRepo = *repo
 	p := loadFor(*repo, *verif)
 	known := loadKnown(*verif)
 
